@@ -381,7 +381,9 @@ theorem C01_settled_system (ops sched : List SysOp) (hall : SysAllowed (sched ++
 
 /-! ### Non-vacuity on the concrete run of `Props/C04.lean` (`SysEx.hist`, `SysEx.sched`) -/
 
-open Piko.Gossip Piko.SysEx in
+section SysExample
+open Piko.Gossip Piko.SysEx
+
 namespace SysEx
 
 theorem registry_final {k : String} {x : SysNode} (h : (Sys.runRev (sched ++ hist)).node k = some x) (e : String) :
@@ -447,5 +449,6 @@ example (choices : List Nat) :
     rw [registry_final hk]
     simp
 
+end SysExample
 
 end Piko
